@@ -248,7 +248,7 @@ SPEC = {
     "Incr": lambda S: dict(outputs=[S.s[0] + 1], consumed=1),
     "Not": _not,
     "FmpAdd": lambda S: dict(outputs=[S.s[0] + S.fmp], consumed=1),
-    "MLoad": _free(1, 1),
+    "MLoad": lambda S: _mload(S),
     "Swap": lambda S: dict(outputs=[S.s[1], S.s[0]], consumed=2),
     "Caller": _free(16, 16),
     "MovUp2": _movup(2), "MovUp3": _movup(3), "MovUp4": _movup(4), "MovUp5": _movup(5),
@@ -272,9 +272,9 @@ SPEC = {
     "Drop": lambda S: dict(outputs=[], consumed=1),
     "CSwap": _cswap,
     "CSwapW": _cswapw,
-    "MLoadW": _free(4, 5),
-    "MStore": lambda S: dict(outputs=[], consumed=1),
-    "MStoreW": lambda S: dict(outputs=[], consumed=1),
+    "MLoadW": lambda S: _mloadw(S),
+    "MStore": lambda S: _mstore(S),
+    "MStoreW": lambda S: _mstorew(S),
     "FmpUpdate": _fmpupdate,
     # --- right shift ----------------------------------------------------------------------------
     "Pad": lambda S: dict(outputs=[S.s[0] - S.s[0]], consumed=0),
@@ -292,8 +292,8 @@ SPEC = {
     # --- hasher / memory-stream operations: results come over the chiplet bus ---------------------
     "HPerm": _free(12, 12),
     "MpVerify": _nop,
-    "Pipe": _free(16, 16),
-    "MStream": _free(16, 16),
+    "Pipe": lambda S: _pipe(S),
+    "MStream": lambda S: _mstream(S),
     "MrUpdate": _free(4, 4),
     "RCombBase": _free(16, 16),
     # --- control flow (decoder/main.md): SPLIT and LOOP pop the condition, REPEAT pops the
@@ -344,6 +344,98 @@ def out_cond(S, ncell, o):
     if o[0] == "bool":
         return o[1](ncell)
     raise ValueError(o)
+
+
+
+# ---- memory operations (docs/src/design/stack/io_ops.md) -----------------------------------------------------
+# With the processor view (C05) the requests made to the memory chiplet are part of the state: the
+# specification says which (context, address) is accessed, which word is written and where the word
+# that was read ends up (memory word element v_i <-> stack position 3 - i).  With the AIR view (C04)
+# the values travel over the bus and stay free.
+def _mem_common(S, n_events, kinds):
+    ex = [("exactly %d memory request(s): %s" % (n_events, "/".join(kinds)), z3.BoolVal(len(S.mem) == n_events and [m[0] for m in S.mem] == list(kinds)))]
+    return ex
+
+
+def _req(S, j, addr_lin, off=0):
+    """conditions on request j: current context, address = value of addr_lin (+off) as a 32-bit integer"""
+    kind, args, res = S.mem[j]
+    c, a = args[0], args[1]
+    cv = c[0].v if hasattr(c, "__getitem__") and not isinstance(c, list) else c.v
+    want = S.v(addr_lin) + off
+    return [(f"request {j} uses the current memory context", cv == S.ctxid),
+            (f"request {j} addresses s-address{'+%d' % off if off else ''}", a.v == want)]
+
+
+def _mloadw(S):
+    if not hasattr(S, "mem"):
+        return dict(outputs=[FREE] * 4, consumed=5)
+    if len(S.mem) != 1:
+        return dict(outputs=[FREE] * 4, consumed=5, extra=_mem_common(S, 1, ["read_mem"]), implied=[("address below 2^32", S.lt(S.s[0], 2**32))])
+    w = [x.l for x in S.mem[0][2]]
+    return dict(outputs=[w[3], w[2], w[1], w[0]], consumed=5, extra=_mem_common(S, 1, ["read_mem"]) + _req(S, 0, S.s[0]),
+                implied=[("address below 2^32", S.lt(S.s[0], 2**32))])
+
+
+def _mload(S):
+    if not hasattr(S, "mem"):
+        return dict(outputs=[FREE], consumed=1)
+    if len(S.mem) != 1:
+        return dict(outputs=[FREE], consumed=1, extra=_mem_common(S, 1, ["read_mem"]), implied=[("address below 2^32", S.lt(S.s[0], 2**32))])
+    w = [x.l for x in S.mem[0][2]]
+    ex = _mem_common(S, 1, ["read_mem"]) + _req(S, 0, S.s[0])
+    ex += [(f"helper h{i} holds word element v{3 - i}", S.ctx.eq(S.hp[i], w[3 - i])) for i in range(3)]
+    return dict(outputs=[w[0]], consumed=1, extra=ex, implied=[("address below 2^32", S.lt(S.s[0], 2**32))])
+
+
+def _mstorew(S):
+    if not hasattr(S, "mem"):
+        return dict(outputs=[], consumed=1)
+    if len(S.mem) != 1:
+        return dict(outputs=[], consumed=1, extra=_mem_common(S, 1, ["write_mem"]), implied=[("address below 2^32", S.lt(S.s[0], 2**32))])
+    data = [x.l for x in S.mem[0][1][2]]
+    ex = _mem_common(S, 1, ["write_mem"]) + _req(S, 0, S.s[0])
+    ex += [(f"word element v{i} written = s{4 - i}", S.ctx.eq(data[i], S.s[4 - i])) for i in range(4)]
+    return dict(outputs=[], consumed=1, extra=ex, implied=[("address below 2^32", S.lt(S.s[0], 2**32))])
+
+
+def _mstore(S):
+    if not hasattr(S, "mem"):
+        return dict(outputs=[], consumed=1)
+    if len(S.mem) != 1:
+        return dict(outputs=[], consumed=1, extra=_mem_common(S, 1, ["write_mem_element"]), implied=[("address below 2^32", S.lt(S.s[0], 2**32))])
+    val = S.mem[0][1][2].l
+    old = [x.l for x in S.mem[0][2]]
+    ex = _mem_common(S, 1, ["write_mem_element"]) + _req(S, 0, S.s[0]) + [("element written = s1", S.ctx.eq(val, S.s[1]))]
+    ex += [(f"helper h{i} holds the untouched word element v{3 - i}", S.ctx.eq(S.hp[i], old[3 - i])) for i in range(3)]
+    return dict(outputs=[], consumed=1, extra=ex, implied=[("address below 2^32", S.lt(S.s[0], 2**32))])
+
+
+def _mstream(S):
+    if not hasattr(S, "mem"):
+        return dict(outputs=[FREE] * 16, consumed=16)
+    if len(S.mem) != 1:
+        return dict(outputs=[FREE] * 16, consumed=16, extra=_mem_common(S, 1, ["read_mem_double"]), implied=[("both addresses (a, a+1) below 2^32", S.lt(S.s[12], 2**32 - 1))])
+    w = S.mem[0][2]
+    a, b = [x.l for x in w[0]], [x.l for x in w[1]]
+    # words at addr and addr+1 overwrite the top 8 items (second word on top, each reversed); the address advances by 2
+    outs = [b[3], b[2], b[1], b[0], a[3], a[2], a[1], a[0]] + S.s[8:12] + [S.s[12] + 2] + S.s[13:16]
+    return dict(outputs=outs, consumed=16, extra=_mem_common(S, 1, ["read_mem_double"]) + _req(S, 0, S.s[12]),
+                implied=[("both addresses (a, a+1) below 2^32", S.lt(S.s[12], 2**32 - 1))])
+
+
+def _pipe(S):
+    if not hasattr(S, "mem"):
+        return dict(outputs=[FREE] * 16, consumed=16)
+    if len(S.mem) != 1 or len(S.adv) != 1:
+        return dict(outputs=[FREE] * 16, consumed=16, extra=_mem_common(S, 1, ["write_mem_double"]), implied=[("both addresses (a, a+1) below 2^32", S.lt(S.s[12], 2**32 - 1))])
+    w = S.adv[0]
+    a, b = [x.l for x in w[0]], [x.l for x in w[1]]
+    data = S.mem[0][1][2]
+    ex = _mem_common(S, 1, ["write_mem_double"]) + _req(S, 0, S.s[12])
+    ex += [(f"advice element {j}.{i} written to memory unchanged", S.ctx.eq(data[j][i].l, (a, b)[j][i])) for j in range(2) for i in range(4)]
+    outs = [b[3], b[2], b[1], b[0], a[3], a[2], a[1], a[0]] + S.s[8:12] + [S.s[12] + 2] + S.s[13:16]
+    return dict(outputs=outs, consumed=16, extra=ex, implied=[("address below 2^32", S.lt(S.s[12], 2**32))])
 
 
 def posts_from_spec(S, sp, rc16_assumed=False):
